@@ -269,7 +269,8 @@ EvResume(t) ==
   /\ ps'  = [ps EXCEPT ![t] = "live"]
   /\ xf' = xf \ {t}
   /\ ldx' = [ldx EXCEPT ![t] = (ck[t] = "present")]
-  /\ UNCHANGED <<ext, ck, rmv, nstart, nhand, mst, stopHeld, exh, phase, dead, cq>>
+  /\ ext' = ext \ {t}           \* a stop from outside concerned the previous run: the resumed run is a new job
+  /\ UNCHANGED <<ck, rmv, nstart, nhand, mst, stopHeld, exh, phase, dead, cq>>
 
 \* backend.delete_checkpoint(t)
 EvDelete(t) ==
